@@ -117,12 +117,4 @@ theorem consistentFull_equiv {p p' : Proj} (hp : ProjEquiv p p') (h : Consistent
   · intro v w
     exact h.2.2 v (w.mono fun a b e => depRel_equiv hp.symm e)
 
-theorem noAmbiguous_equiv {p p' : Proj} (hp : ProjEquiv p p') (h : NoAmbiguousSelfDep p) : NoAmbiguousSelfDep p' := by
-  intro e he hself d hd
-  obtain ⟨s, hs, hse⟩ := hp.bwd e.1 e.2 he
-  obtain ⟨r, hr⟩ := hself
-  rcases h (e.1, s) hs ⟨r, (hse.deps _).mp hr⟩ d ((hse.deps d).mp hd) with h | h
-  · exact .inl ((hp.enabled _).mpr h)
-  · exact .inr h
-
 end CV.Consistency
